@@ -181,8 +181,8 @@ theorem replaceGo_endsLf (pat rep : Str) (hne : pat ≠ [])
           | cons b p => simp at hr
       subst hpat
       obtain ⟨r, hr⟩ := hrep rfl
-      exact ⟨r, by simp [replaceGo, hr]⟩
-    · simp only [hp, if_false]
+      exact ⟨r, by simp [hr]⟩
+    · simp only [hp]
       exact ⟨[], rfl⟩
   | cons c t ih =>
     intro skip h
@@ -211,7 +211,7 @@ theorem replaceGo_endsLf (pat rep : Str) (hne : pat ≠ [])
           exact ⟨r, by rw [hnil, hr]; simp⟩
         · obtain ⟨r, hr⟩ := ih (pat.length - 1) (by omega)
           exact ⟨rep ++ r, by rw [hr]; simp⟩
-      · simp only [hp, if_false]
+      · simp only [hp]
         obtain ⟨r, hr⟩ := ih 0 (by omega)
         exact ⟨c :: r, by rw [hr]; simp⟩
 
@@ -226,7 +226,7 @@ theorem normalise_endsLf (s : Str) (h : EndsLf s) : EndsLf (normalise s) := by
   unfold normalise
   apply replaceAll_endsLf _ _ (by simp) (by simp)
   apply replaceAll_endsLf _ _ (by simp) (fun _ => ⟨[], rfl⟩)
-  simp only [deletions, List.map, List.foldl]
+  simp only [deletions, List.foldl]
   repeat (apply replaceAll_endsLf _ _ (by decide) (fun h => absurd h (by decide)))
   exact h
 
@@ -234,7 +234,7 @@ theorem normalise_endsLf (s : Str) (h : EndsLf s) : EndsLf (normalise s) := by
 theorem normalise_plain' (s : Str) (hesc : esc ∉ s) (hcr : '\r' ∉ s) : normalise s = s := by
   unfold normalise
   have hd : deletions.foldl (fun acc p => replaceAll p [] acc) s = s := by
-    simp only [deletions, List.map, List.foldl, replaceAll]
+    simp only [deletions, List.foldl, replaceAll]
     repeat (rw [replaceGo_id _ _ (esc) (by decide) s hesc])
   rw [hd]
   simp only [replaceAll]
